@@ -16,6 +16,7 @@ import re,sys,shlex
 src,prop=sys.argv[1],sys.argv[2]
 lines=[l.strip() for l in open(src+'/demo_cmd.txt') if l.strip() and not l.strip().startswith('#')]
 cmd=[l for l in lines if 'go test' in l or 'go run' in l][-1]
+cmd=re.sub(r'\s+#.*$','',cmd)
 dest=None
 m=re.search(r'cp\s+\S*seed\S*_test\.go\s+(\S+)',cmd)
 if m:
